@@ -146,6 +146,8 @@ def canon(v):
         return "~obj"
     if isinstance(v, dict) and v == {"decision": "x"}:
         return "~dict"
+    if isinstance(v, tuple) and v in (("t1",), (), ("t1", "t2")):
+        return {1: "~tup1", 0: "~tup0", 2: "~tup2"}[len(v)]       # tuple-valued values keep their shape (see pyval)
     if isinstance(v, list) and any(x is v for x in v):
         return "~cyc"                      # a self-referential list (see pyval)
     if isinstance(v, (list, tuple)):
@@ -190,6 +192,8 @@ def pyval(text):
         return Arr()
     if text == "~obj":
         return OBJ
+    if text in ("~tup0", "~tup1", "~tup2"):      # a value that IS a tuple (of length 0, 1, 2): single-output nodes return it as it is
+        return {"~tup0": (), "~tup1": ("t1",), "~tup2": ("t1", "t2")}[text]
     if text == "~dict":                    # a dict-valued value (an interrupt's answer may well be a dict)
         return {"decision": "x"}
     if text == "~cyc":                     # a value with a reference cycle: a list that contains itself
